@@ -71,6 +71,8 @@ var hostilePool = []string{
 	"[::1]:6000", "::1:6000", "[2001:db8::1]:6000", "2001:db8::1:6000", "::ffff:1.2.3.4:6000", "example.com:6000", "localhost:6000",
 	"1.2.3:6000", "1.2.3.4.5:6000", "256.1.1.1:6000", "1.2.3.4:6000:1", "1.2.3.4:60 00x", "١.٢.٣.٤:6000", "1.2.3.4:６０００", "01.2.3.4:6000",
 	" 1.2.3.4 : 6002 ", "\t9.9.9.9:6000\n", "1.2.3.4:6000\x00", "1.2.3.4:06000",
+	// bracketed hosts (the URL spelling of a literal address) are not ip:port
+	"[1.2.3.4]:6000", "[34.12.56.78]:6000", "[::ffff:34.12.56.78]:6000", "[8.8.8.8]:1024", "[1.2.3.4]:6000]", "[[1.2.3.4]]:6000",
 }
 
 func TestC26_PeerList(t *testing.T) {
